@@ -359,3 +359,242 @@ Proof.
       rewrite (mk_constraint_notset x Hns). reflexivity.
   - reflexivity.
 Qed.
+
+(* ------------------------------------------------------------------ tags *)
+Definition not_tagish (r : list token) : Prop :=
+  match r with
+  | TSym LBrack :: _ | TKw KIMPLICIT :: _ | TKw KEXPLICIT :: _ => False
+  | _ => True
+  end.
+
+Lemma p_mode_default : forall r, not_tagish r -> p_mode r = (TMDefault, r).
+Proof.
+  intros r H. destruct r as [|t r0]; [reflexivity|].
+  destruct t as [s|s|z|k|p]; try reflexivity. destruct k; try reflexivity; contradiction.
+Qed.
+
+Lemma tag_ok : forall tg r, not_tagish r -> p_tag (pp_tagopt tg ++ r) = Some (tg, r).
+Proof.
+  intros [[cl num md]|] r Hr.
+  - cbn [pp_tagopt pp_tag t_class t_num t_mode].
+    assert (Hn : forall cl', p_tagnum cl'
+               ((TNum (Z.of_N num) :: Y RBrack ::
+                 match md with TMDefault => [] | TMImplicit => [K KIMPLICIT] | TMExplicit => [K KEXPLICIT] end) ++ r)
+               = Some (Some (mkTag cl' num md), r)).
+    { intro cl'. cbn [app p_tagnum].
+      assert (Hle : (0 <=? Z.of_N num)%Z = true) by (apply Z.leb_le, N2Z.is_nonneg).
+      rewrite Hle, N2Z.id.
+      destruct md; cbn [app p_mode]; try reflexivity.
+      rewrite (p_mode_default r Hr). reflexivity. }
+    destruct cl; cbn [app p_tag]; try (rewrite <- app_assoc; cbn [app]); try apply Hn.
+  - cbn [pp_tagopt app]. unfold p_tag.
+    destruct r as [|t r0]; [reflexivity|].
+    destruct t as [s|s|z|k|p]; try reflexivity. destruct p; try reflexivity; contradiction.
+Qed.
+
+(* ----------------------------------------------------- primitive types *)
+Definition good_cr (r : list token) : Prop :=
+  match r with TSym Comma :: _ | TSym RBrace :: _ => True | _ => False end.
+
+Definition not_lbrace (r : list token) : Prop :=
+  match r with TSym LBrace :: _ => False | _ => True end.
+
+Lemma nn_ok : forall x r, p_nn (pp_nn x ++ r) = Some (x, r).
+Proof. intros [id v] r. reflexivity. Qed.
+
+Lemma nnlist_ok : forall nn k r, length (pp_nnlist nn) <= k -> not_lbrace r ->
+  p_nnlist k (pp_nnlist nn ++ r) = Some (nn, r).
+Proof.
+  intros nn k r Hk Hr. destruct nn as [|x nn].
+  - cbn [pp_nnlist app]. unfold p_nnlist.
+    destruct r as [|t r0]; [reflexivity|].
+    destruct t as [s|s|z|kk|p]; try reflexivity. destruct p; try reflexivity; contradiction.
+  - unfold pp_nnlist in *. cbn [app p_nnlist]. rewrite <- app_assoc.
+    assert (Hs : p_sep1 p_nn is_comma k (pp_sep (Y Comma) pp_nn (x :: nn) ++ [Y RBrace] ++ r)
+                 = Some (x :: nn, [Y RBrace] ++ r)).
+    { apply (p_sep1_ok _ p_nn pp_nn (Y Comma) is_comma (fun _ => True)).
+      - reflexivity.
+      - intro r0. exact I.
+      - congruence.
+      - apply Forall_forall. intros y _ r0 _. apply nn_ok.
+      - assert (HF : Forall (fun y => pp_nn y <> []) (x :: nn))
+          by (apply Forall_forall; intros y _; discriminate).
+        pose proof (pp_sep_len_count _ (Y Comma) pp_nn (x :: nn) HF). lens.
+      - exact I.
+      - reflexivity. }
+    rewrite Hs. reflexivity.
+Qed.
+
+Lemma eitem_ok : forall e r, good_cr r -> p_eitem (pp_eitem e ++ r) = Some (e, r).
+Proof.
+  intros [id [v|]|] r Hr; try reflexivity.
+  cbn [pp_eitem app p_eitem].
+  destruct r as [|t r0]; [contradiction|].
+  destruct t as [s|s|z|kk|p]; try contradiction. destruct p; try contradiction; reflexivity.
+Qed.
+
+Lemma good_cr_comma : forall r, good_cr (Y Comma :: r).
+Proof. intro r. exact I. Qed.
+
+Lemma prim_ok : forall p k r, wf_prim p = true -> length (pp_prim p) <= k -> not_lbrace r ->
+  p_prim k (pp_prim p ++ r) = Some (p, r).
+Proof.
+  intros p k r Hwf Hk Hr. destruct p; try reflexivity.
+  - cbn [pp_prim app p_prim] in *. rewrite nnlist_ok; auto. lens.
+  - cbn [pp_prim app p_prim] in *. rewrite nnlist_ok; auto. lens.
+  - cbn [wf_prim] in Hwf. destruct items as [|e items]; [discriminate|].
+    cbn [pp_prim app p_prim] in *. rewrite <- app_assoc.
+    assert (Hs : p_sep1 p_eitem is_comma k (pp_sep (Y Comma) pp_eitem (e :: items) ++ [Y RBrace] ++ r)
+                 = Some (e :: items, [Y RBrace] ++ r)).
+    { apply (p_sep1_ok _ p_eitem pp_eitem (Y Comma) is_comma good_cr).
+      - reflexivity.
+      - intro r0. exact I.
+      - congruence.
+      - apply Forall_forall. intros y _ r0 Hr0. apply eitem_ok; auto.
+      - assert (HF : Forall (fun y => pp_eitem y <> []) (e :: items)).
+        { apply Forall_forall. intros [id [v|]|] _; discriminate. }
+        pose proof (pp_sep_len_count _ (Y Comma) pp_eitem (e :: items) HF). lens.
+      - exact I.
+      - reflexivity. }
+    rewrite Hs. reflexivity.
+Qed.
+
+Lemma prim_len : forall p, 1 <= length (pp_prim p).
+Proof. destruct p; cbn; lia. Qed.
+
+Lemma prim_not_tagish : forall p r, not_tagish (pp_prim p ++ r).
+Proof. destruct p; intros; exact I. Qed.
+
+Lemma prim_not_struct : forall p r, is_struct_start (pp_prim p ++ r) = false.
+Proof. destruct p; intros; reflexivity. Qed.
+
+(* ---------------------------------------------------------------- types *)
+Definition tfollow (r : list token) : Prop :=
+  match r with TSym LParen :: _ | TSym LBrace :: _ => False | _ => True end.
+
+Definition Tok (n : nat) : Prop := forall t r,
+  wf_texpr t = true -> length (pp_texpr t) < n -> tfollow r ->
+  p_texpr n (pp_texpr t ++ r) = Some (t, r).
+
+Lemma marker_follow : forall mk r, good_cr r -> tfollow (pp_marker mk ++ r).
+Proof.
+  intros [| |[z|[|]]] r Hr; try exact I.
+  cbn [pp_marker app]. destruct r as [|t r0]; [contradiction|].
+  destruct t as [s|s|z|kk|p]; try contradiction. destruct p; try contradiction; exact I.
+Qed.
+
+Lemma member_ok : forall n, Tok n -> forall m r,
+  wf_member m = true -> length (pp_member m) <= n -> good_cr r ->
+  p_member (p_texpr n) (pp_member m ++ r) = Some (m, r).
+Proof.
+  intros n HT [id t mk|] r Hwf Hlen Hr; [|reflexivity].
+  cbn [wf_member] in Hwf. apply andb_prop in Hwf. destruct Hwf as [_ Hwt].
+  cbn [pp_member] in *. rewrite <- app_comm_cons, <- app_assoc.
+  cbn [p_member].
+  rewrite (HT t _ Hwt ltac:(lens) (marker_follow mk r Hr)).
+  destruct mk as [| |[z|[|]]]; try reflexivity.
+  cbn [pp_marker app].
+  destruct r as [|t0 r0]; [contradiction|].
+  destruct t0 as [s|s|z|kk|p]; try contradiction. destruct p; try contradiction; reflexivity.
+Qed.
+
+Lemma member_nonempty : forall m, pp_member m <> [].
+Proof. destruct m; discriminate. Qed.
+
+Lemma members_ok : forall n, Tok n -> forall ms r,
+  forallb wf_member ms = true ->
+  length (pp_sep (Y Comma) pp_member ms) <= n ->
+  p_members (p_texpr n) n (pp_sep (Y Comma) pp_member ms ++ Y RBrace :: r) = Some (ms, r).
+Proof.
+  intros n HT ms r Hwf Hlen.
+  destruct ms as [|m ms]; [reflexivity|].
+  assert (Hs : p_sep1 (p_member (p_texpr n)) is_comma n
+                 (pp_sep (Y Comma) pp_member (m :: ms) ++ Y RBrace :: r)
+               = Some (m :: ms, Y RBrace :: r)).
+  { apply (p_sep1_ok _ (p_member (p_texpr n)) pp_member (Y Comma) is_comma good_cr).
+    - reflexivity.
+    - intro r0. exact I.
+    - congruence.
+    - apply Forall_forall. intros x Hin r0 Hr0.
+      apply member_ok; auto.
+      + rewrite forallb_forall in Hwf. auto.
+      + pose proof (pp_sep_len_in _ (Y Comma) pp_member (m :: ms) x Hin). lia.
+    - assert (HF : Forall (fun y => pp_member y <> []) (m :: ms))
+        by (apply Forall_forall; intros y _; apply member_nonempty).
+      pose proof (pp_sep_len_count _ (Y Comma) pp_member (m :: ms) HF). lia.
+    - exact I.
+    - reflexivity. }
+  unfold p_members.
+  assert (Hhd : exists t0 rest, pp_sep (Y Comma) pp_member (m :: ms) ++ Y RBrace :: r = t0 :: rest
+                                /\ t0 <> Y RBrace).
+  { destruct ms as [|m2 ms2].
+    - rewrite pp_sep_one. destruct m; cbn; do 2 eexists; split; try reflexivity; discriminate.
+    - rewrite pp_sep_cons2. destruct m; cbn; do 2 eexists; split; try reflexivity; discriminate. }
+  destruct Hhd as [t0 [rest [E Hne]]].
+  rewrite E in *.
+  rewrite Hs.
+  destruct t0 as [s|s|z|kk|p]; try reflexivity. destruct p; try reflexivity. congruence.
+Qed.
+
+Lemma struct_kw_ok : forall k, struct_kw (skind_kw k) = Some k.
+Proof. destruct k; reflexivity. Qed.
+Lemma of_kw_ok : forall k, of_kw (okind_kw k) = Some k.
+Proof. destruct k; reflexivity. Qed.
+
+Lemma texpr_step : forall n, Tok n -> Tok (S n).
+Proof.
+  intros n HT t r Hwf Hlen Hr.
+  cbn [p_texpr].
+  destruct t as [tg p c|tg k ms|tg k c e].
+  - (* TPrim *)
+    cbn [wf_texpr] in Hwf. apply andb_prop in Hwf. destruct Hwf as [Hp Hc].
+    cbn [pp_texpr] in *. rewrite <- !app_assoc.
+    rewrite (tag_ok tg _ (prim_not_tagish p _)).
+    rewrite prim_not_struct.
+    pose proof (prim_len p) as Hpl.
+    assert (Hnb : not_lbrace (pp_copt c ++ r)).
+    { destruct c as [c|].
+      - cbn [wf_copt] in Hc. destruct c; try discriminate. destruct cs; [discriminate|]. exact I.
+      - cbn [pp_copt app]. destruct r as [|t0 r0]; [exact I|].
+        destruct t0 as [s|s|z|kk|q]; try exact I. destruct q; try exact I; contradiction. }
+    rewrite (prim_ok p n _ Hp ltac:(lens) Hnb).
+    assert (Hnl : not_lparen r).
+    { destruct r as [|t0 r0]; [exact I|].
+      destruct t0 as [s|s|z|kk|q]; try exact I. destruct q; try exact I; contradiction. }
+    rewrite (copt_ok c n r Hc ltac:(lens) Hnl). reflexivity.
+  - (* TStruct *)
+    cbn [wf_texpr] in Hwf.
+    cbn [pp_texpr] in *. rewrite <- app_assoc.
+    rewrite tag_ok by (destruct k; exact I).
+    assert (Hss : forall tl, is_struct_start (K (skind_kw k) :: tl) = true) by (destruct k; reflexivity).
+    rewrite <- app_comm_cons. rewrite Hss.
+    rewrite <- app_comm_cons. cbn [p_struct_or_of]. rewrite struct_kw_ok.
+    rewrite <- app_assoc. cbn [app].
+    rewrite (members_ok n HT ms r Hwf ltac:(lens)). reflexivity.
+  - (* TOf *)
+    cbn [wf_texpr] in Hwf. apply andb_prop in Hwf. destruct Hwf as [Hc He].
+    cbn [pp_texpr] in *. rewrite <- app_assoc.
+    rewrite tag_ok by (destruct k; exact I).
+    assert (Hss : forall tl, is_struct_start (K (okind_kw k) :: tl) = true) by (destruct k; reflexivity).
+    rewrite <- app_comm_cons. rewrite Hss.
+    rewrite <- app_assoc. rewrite <- app_comm_cons.
+    assert (Hgo : p_struct_or_of (p_texpr n) n tg (K (okind_kw k) :: pp_copt c ++ K KOF :: pp_texpr e ++ r)
+                  = p_of (p_texpr n) n tg k (pp_copt c ++ K KOF :: pp_texpr e ++ r)).
+    { unfold p_struct_or_of.
+      destruct c as [c|].
+      - cbn [wf_copt] in Hc. destruct c as [| | |s| | | |cs]; try discriminate.
+        + cbn [pp_copt pp_constr app]. rewrite of_kw_ok. reflexivity.
+        + cbn [wf_ofc] in Hc. destruct cs as [|x [|? ?]]; try discriminate.
+          cbn [pp_copt pp_constr flat_map app]. rewrite of_kw_ok. reflexivity.
+      - cbn [pp_copt app]. rewrite of_kw_ok. reflexivity. }
+    rewrite Hgo. unfold p_of.
+    rewrite (ofconstr_ok c n _ Hc ltac:(lens)).
+    rewrite (HT e r He ltac:(lens) Hr). reflexivity.
+Qed.
+
+Lemma Tok_all : forall n, Tok n.
+Proof.
+  induction n as [|n IH].
+  - intros t r _ Hlen. lia.
+  - apply texpr_step. exact IH.
+Qed.
